@@ -19,7 +19,7 @@ from ..dataflow import all_def_values, depends_on
 from ..effects import MPI_COLLECTIVES, Unknown, ceval, classify_call, is_mpi_receiver
 from ..model import AnalysisError, FuncInfo, dotted, norm_stmt, unparse, walk_no_nested
 from .c05 import SOURCE_NAMES, _is_source_call, _passthrough_classes
-from .common import QUICK, calls_in, kwarg, parents_map, resolves_to_class
+from .common import QUICK, calls_in, const_value, kwarg, parents_map, resolves_to_class
 
 EXPLANATION = (
     "Static protocol analysis of the MPI arm (variant `mpi`: the `if parallel.use_mpi():` branch of catalog.py and the "
@@ -115,6 +115,11 @@ def _mpi_calls(prog, fi: FuncInfo):
             al = env.alias_of(f.id)
             if al is not None and isinstance(al, ast.Attribute):
                 f = al
+        elif isinstance(f, ast.Attribute) and isinstance(f.value, ast.Name) and f.value.id == "self" and fi.cls is not None and f.attr not in fi.cls.methods:
+            # an instance attribute that holds a bound communicator method (`self._recv = COMM.recv`, stored once)
+            stores = [x.value for m in fi.cls.methods.values() for x in walk_no_nested(m.node) if isinstance(x, ast.Assign) and any(isinstance(t_, ast.Attribute) and isinstance(t_.value, ast.Name) and t_.value.id == "self" and t_.attr == f.attr for t_ in x.targets)]
+            if len(stores) == 1 and isinstance(stores[0], ast.Attribute):
+                f = stores[0]
         if isinstance(f, ast.Attribute) and f.attr in ("send", "recv", "bcast", "Bcast", "Barrier", "gather", "Split", "Free", "scatter", "allgather", "isend", "irecv") and is_mpi_receiver(prog, fi, f.value):
             out.append((c, f.attr, _comm_class(prog, fi, f.value)))
     return out
@@ -263,11 +268,9 @@ def rule_r2(prog, res) -> None:
             if op not in ("send", "recv", "isend", "irecv"):
                 continue
             t = kwarg(c, "tag")
-            if isinstance(t, ast.Name):
-                # a module-level constant (e.g. _TAG_TASK = 1)
-                vals = [g.value for g in prog.lookup(fi.module, t.id, fi.variant) if getattr(g, "kind", "") == "global" and isinstance(g.value, ast.Constant)]
-                if len(vals) == 1:
-                    t = vals[0]
+            if t is not None:
+                # a module-level constant (e.g. _TAG_TASK = 1) or a class-level one (self.PATCH_TAG, WorkerManager.PATCH_TAG)
+                t = const_value(prog, fi, t) or t
             tag = t.value if isinstance(t, ast.Constant) else ("?" if t is not None else 0)
             (sends if "send" in op else recvs).setdefault((k, tag), []).append((fi, c))
             res.touch(fi)
